@@ -443,3 +443,16 @@ prop("C17",
 PROPS["C13"]["quick"].append({"engine": "Z", "prop": "C13"})
 PROPS["C13"]["thorough"].append({"engine": "Z", "prop": "C13", "zoo_tier": "thorough"})
 META["C13"]["engine"] = "S+Z"
+
+
+prop("C20",
+     quick=[{"engine": "Z", "prop": "C20"}],
+     thorough=[{"engine": "Z", "prop": "C20", "zoo_tier": "thorough"}],
+     assumptions=[
+         "tree shapes: all ordered forests with <= 4 (6 thorough) nodes below a family root with leaf kinds assigned systematically, plus the forms / ignore / sort / nested families; names of width 1 and 8, wide and non-ASCII display names; names containing the box glyphs or line breaks are outside the alphabet",
+         "rows: with and without counters (attribute, Bencher::counter, per-input, CLI --items-count / --bytes-count / --chars-count, binary and decimal), with and without allocation rows, thread-count branches, zero samples; actions bench (virtual clock, --timer tsc), test, list; 3 sort settings",
+         "statistics cells are compared with the real formatters applied (in the hook, independently of the painter) to the Stats tapped for that benchmark; the formatters themselves are C18's subject",
+     ],
+     technique="bounded-exhaustive enumeration of tree shapes x row kinds x actions as black-box runs of the generated crate; the output is parsed back from indentation and glyphs alone and compared with the reference display tree and, cell by cell, with the tapped statistics",
+     text="Every tree shape family is run under bench (deterministic virtual clock), test and list actions and several counter / sort / ignore variants; a parser rebuilds the tree from indentation and box glyphs alone (failure, a bar not exactly under ancestors with later siblings, a corner that is not the last child are violations); the parsed tree must equal the reference tree of selected, sorted nodes (each once, depth first, thread-count and argument branches included), the header must carry the six headings, every statistics row and continuation row must equal the tapped statistics of that benchmark in order and carry its prefix, and (ignored) rows must not have run.",
+     note=Z_NOTE + " The statistics tap (hook H7) formats with the real formatters outside the painter.", engine="Z")
